@@ -580,3 +580,115 @@ Proof.
       rewrite test_report_no_tests in E by auto.
       apply (f_equal (@List.length _)) in E. simpl in E. lia.
 Qed.
+
+Definition handler_m (fuel : nat) (P : program) (h : handler) (args : list payload) : M unit :=
+  let* fr := bind_payload (h_params h) args [] in
+  let* _ := exec_block fuel P [fr] (h_body h) in ret tt.
+
+Lemma built_handler_m fuel P h args : Built (handler_m fuel P h args).
+Proof.
+  unfold handler_m. apply B_bind; [apply B_atom; auto with atomdb|intro fr].
+  apply B_bind; [auto|intros _]. apply B_atom, atom_ret.
+Qed.
+
+Theorem handle_event_stop_prefix : forall fuel P name args k s0,
+  st_stopped s0 = false -> st_check_after_yield s0 = true ->
+  forall oI sI, handle_event fuel P name args (set_stop None s0) = (oI, sI) ->
+  forall ok sk, handle_event fuel P name args (set_stop (Some k) s0) = (ok, sk) ->
+    (~ (st_yields s0 <= k < st_yields sI) /\ ok = oI /\ sk = set_stop (Some k) sI)
+    \/
+    (st_yields s0 <= k < st_yields sI /\ ok = OErr EStopped /\ st_yields sk = S k /\ st_stopped sk = true /\
+     prefix (rev (st_trace s0)) (rev (st_trace sk)) /\ prefix (rev (st_trace sk)) (rev (st_trace sI))).
+Proof.
+  intros fuel P name args k s0 St Ck oI sI EI ok sk Ek.
+  unfold handle_event in EI, Ek. destruct (find_handler name (p_handlers P)) as [h|].
+  - fold (handler_m fuel P h args) in EI, Ek.
+    destruct (handler_m fuel P h args (set_stop None s0)) as [rI s1] eqn:E1.
+    destruct (handler_m fuel P h args (set_stop (Some k) s0)) as [rk s1k] eqn:E1k.
+    destruct (built_stop_prefix _ _ (built_handler_m fuel P h args) k s0 St Ck _ _ E1 _ _ E1k)
+      as [(N & -> & -> & _) | (R & -> & Y & S & Pa & Pb)].
+    + left. destruct rI; inversion EI; inversion Ek; subst; auto.
+    + right. inversion Ek; subst. destruct rI; inversion EI; subst; auto 10.
+  - left. inversion EI; inversion Ek; subst. simpl. split; [lia|auto].
+Qed.
+
+(* ---------- nothing runs once the flag is up ---------- *)
+Definition stopped_err (n : nat) : err := match n with O => EOutOfFuel | S _ => EStopped end.
+
+(* the three functions that model Evaluator.eval (they tick first): no state change at all *)
+Lemma frozen_eval_expr n P e x s : st_stopped s = true -> eval_expr n P e x s = (Er (stopped_err n), s).
+Proof. intro H. destruct n; [reflexivity|]. cbn [eval_expr]. unfold bindM, tick. now rewrite H. Qed.
+Lemma frozen_exec_stmt n P e x s : st_stopped s = true -> exec_stmt n P e x s = (Er (stopped_err n), s).
+Proof. intro H. destruct n; [reflexivity|]. cbn [exec_stmt]. unfold bindM, tick. now rewrite H. Qed.
+Lemma frozen_exec_block n P e l s : st_stopped s = true -> exec_block n P e l s = (Er (stopped_err n), s).
+Proof. intro H. destruct n; [reflexivity|]. cbn [exec_block]. unfold bindM, tick. now rewrite H. Qed.
+
+(* the helpers that do not tick themselves: whatever they evaluate first does *)
+Lemma frozen_eval_exprs n P e l s : st_stopped s = true ->
+  exists r, eval_exprs n P e l s = (r, s) /\ (forall v, r = Ok v -> l = [] /\ v = []).
+Proof.
+  intro H. destruct n; [eexists; split; [reflexivity|discriminate]|]. cbn [eval_exprs].
+  destruct l as [|x t].
+  - eexists; split; [reflexivity|]. intros v E. inversion E; auto.
+  - unfold bindM. rewrite frozen_eval_expr by auto. eexists; split; [reflexivity|discriminate].
+Qed.
+Lemma frozen_exec_stmts n P e l s : st_stopped s = true ->
+  exists r, exec_stmts n P e l s = (r, s) /\ (forall v, r = Ok v -> l = []).
+Proof.
+  intro H. destruct n; [eexists; split; [reflexivity|discriminate]|]. cbn [exec_stmts].
+  destruct l as [|x t].
+  - eexists; split; [reflexivity|auto].
+  - unfold bindM. rewrite frozen_exec_stmt by auto. eexists; split; [reflexivity|discriminate].
+Qed.
+Lemma frozen_exec_cond n P e c b s : st_stopped s = true ->
+  exists err, exec_cond n P e c b s = (Er err, s).
+Proof.
+  intro H. destruct n; [eexists; reflexivity|]. cbn [exec_cond]. unfold bindM.
+  rewrite frozen_eval_expr by auto. eauto.
+Qed.
+Lemma frozen_exec_while n P e c b s : st_stopped s = true ->
+  exists err, exec_while n P e c b s = (Er err, s).
+Proof.
+  intro H. destruct n; [eexists; reflexivity|]. cbn [exec_while]. unfold bindM.
+  destruct (frozen_exec_cond n P e c b s H) as (err & ->). eauto.
+Qed.
+Lemma frozen_eval_call n P e name x t s : st_stopped s = true ->
+  exists err, eval_call n P e name (x :: t) s = (Er err, s).
+Proof.
+  intro H. destruct n; [eexists; reflexivity|]. cbn [eval_call]. unfold bindM.
+  destruct (frozen_eval_exprs n P e (x :: t) s H) as ([v|err] & -> & Hv); [|eauto].
+  destruct (Hv v eq_refl). discriminate.
+Qed.
+
+(* every Built computation (in particular exec_for, whose ranger may still allocate
+   the next element, and eval_call on an empty argument list): no yield, flag stays up *)
+Lemma frozen_built A (m : M A) s r s' : Built m -> st_stopped s = true -> m s = (r, s') ->
+  st_stopped s' = true /\ st_yields s' = st_yields s.
+Proof. intros Hb St E. apply (built_mono _ _ Hb _ _ _ E). auto. Qed.
+
+(* ---------- C14.2  nothing_after_stop, on final states ---------- *)
+(* the raising tick cuts every continuation: with the corrected order, whatever [f]
+   is, it is not run; the state differs from the one the tick was entered with only
+   in the yield counter and the flag *)
+Lemma tick_raise_cuts B (f : unit -> M B) s :
+  st_stopped s = false -> st_check_after_yield s = true -> st_stop_at s = Some (st_yields s) ->
+  bindM tick f s = (Er EStopped, upd_yield (S (st_yields s)) true s).
+Proof. intros St Ck At. unfold bindM, tick. now rewrite St, At, Ck, Nat.eqb_refl. Qed.
+
+(* a run with the flag raised at yield k (alone, no reference run): as soon as the
+   flag is up at the end, the result is "stopped" and the raising yield was the
+   last one: the evaluator never reached another eval prologue *)
+Theorem stop_is_immediate A (m : M A) : Built m ->
+  forall k s r s', st_stopped s = false -> st_check_after_yield s = true -> st_stop_at s = Some k ->
+  m s = (r, s') ->
+  (st_stopped s' = false /\ ~ (st_yields s <= k < st_yields s'))
+  \/ (st_stopped s' = true /\ r = Er EStopped /\ st_yields s' = S k /\ st_yields s <= k).
+Proof.
+  intros Hb k s r s' St Ck At E.
+  destruct (m (set_stop None s)) as [rI sI] eqn:EI.
+  assert (Es : set_stop (Some k) s = s) by (rewrite <- At; apply set_stop_id).
+  rewrite <- Es in E.
+  destruct (built_stop_prefix _ _ Hb k s St Ck _ _ EI _ _ E) as [(N & -> & -> & S0) | (R & -> & Y & S1 & _)].
+  - left. split; [auto|]. simpl. exact N.
+  - right. repeat split; auto; lia.
+Qed.
